@@ -20,7 +20,7 @@ def valid_case(rng, maxlen, allow_nonl=True):
 def run(R):
     if not R.build():
         return
-    R.lean(["C01", "C01Driver", "C01Run"])
+    R.lean(["C01", "C01Driver", "C01Run", "C19Main"])
     import hunted
     hunted.run(R, "C01")
     quick = R.tier == "quick"
